@@ -7,6 +7,12 @@ PENDING = "check not built yet in this session (construction order: DESIGN.md se
 NOT_APPLICABLE = {("C%02d" % i): PENDING for i in range(1, 21)}
 
 TEXT = {
+    "C18": {
+        "text": "The catalogue theorem is evaluated on the error-site table regenerated from the sources on every run: outside a closed, justified list of sites bounded below 8 value bytes, no error message formats a value-derived string unless hidden behind a SafeError, and every error that quotes its input (strconv, hex, json) is hidden or bounded. The Describe masking theorems show the printed value never contains the complete PAN / PIN block. The dynamic oracle induces failures with high-entropy secrets across kinds, encodings and operations and greps the library's error texts and Describe output (partial: the translator's classification is syntactic; track filters are outside the model).",
+        "design_ref": "DESIGN.md section 6 C18",
+        "note": "Trusted: Coq kernel, the go/ast error-site translator and its argument classes, hand-written masking model validated by correspondence through the real Describe, Go harness.",
+        "technique": "Rocq theorems over a generated error-site catalogue and a masking model + secret-grepping oracle",
+    },
     "C13": {
         "text": "Generic theorems about a small-step lock machine (any number of threads, any programs, any schedule): when every method is well locked, every access to guarded state is made by the mutex holder (race freedom, atomicity of invocations in acquisition order) and some thread can always progress (deadlock freedom). The instance theorem evaluates well-lockedness on the lock summary regenerated from message.go / field/composite.go by a go/ast translator on every run, for exactly the operations the property lists. The runtime side (memory model, scheduler, map fault detection) is not modelled: -race stress runs cross-check the translator and check that every Pack output decodes to written values (partial).",
         "design_ref": "DESIGN.md section 6 C13",
